@@ -87,6 +87,14 @@ def coq_deps(vfile, seen=None):
 
 
 def ensure_makefile():
+    import fcntl
+    os.makedirs(CACHE, exist_ok=True)
+    with open(os.path.join(CACHE, "mk.lock"), "w") as lk:
+        fcntl.flock(lk, fcntl.LOCK_EX)
+        _ensure_makefile()
+
+
+def _ensure_makefile():
     files = sorted(os.path.relpath(p, COQ) for d in ("Lib", "Gen", "Model", "Proofs", "Props", "Run")
                    for p in glob.glob(os.path.join(COQ, d, "**", "*.v"), recursive=True))
     allp = os.path.join(COQ, "_CoqProject.all")
@@ -140,7 +148,8 @@ class Check:
         self.run_ok = True
         tmo = 1500 if self.tier == "quick" else 3000
         for t in targets:
-            rc, out, dt = sh(["make", "-f", "Makefile.coq", "-j16", t], cwd=COQ, timeout=tmo)
+            # serialise Coq builds of concurrent checks (shared .vo files and Makefile.coq)
+            rc, out, dt = sh(["flock", os.path.join(CACHE, "coq.lock"), "make", "-f", "Makefile.coq", "-j16", t], cwd=COQ, timeout=tmo)
             open(os.path.join(self.work, "make_%s.log" % os.path.basename(t)), "w").write(out)
             if rc != 0:
                 m = re.search(r'File "\./([^"]+)", line (\d+)', out)
@@ -318,9 +327,8 @@ class Check:
 
     # ------------------------------------------------------------------ 7. classify
     def known_findings(self):
-        p = os.path.join(ROOT, "known_findings.jsonl")
         out = []
-        if os.path.exists(p):
+        for p in sorted(glob.glob(os.path.join(ROOT, "known_findings.d", "*.jsonl"))):
             for l in open(p):
                 l = l.strip()
                 if l and not l.startswith("#"):
